@@ -100,7 +100,7 @@ import (
 	"src.example/p/q"
 	"src.example/h"
 )
-type I1 interface { M0(); M1(a q.T, b int) error; M2(first q.T, rest ...q.T) }
+type I1 interface { M0(); M1(a q.T, b int) error; M2(first q.T, rest ...q.T); M3(chunks ...[]q.T) []q.T }
 type I2 interface {}
 type G[T any] interface { Get(k T) T }
 type S struct{}
@@ -109,6 +109,8 @@ type K interface { h.J }
 type AG = G[int]
 type Cmp[T any] interface { Less(o T) bool }
 type SO[T Cmp[T]] interface { Min() T }
+type UID string
+type Repo[K interface{ UID }, V any] interface { Load(id K) (V, error) }
 `
 
 type mockSetup struct {
@@ -169,6 +171,9 @@ func buildMocker(ex *exec.Exec, env *Env, pkgs map[string]*types.Package, mode s
 			t := symIdent(ex, "name_"+tn.Name(), bound)
 			ex.AssumeNoCheck(c.Not(c.Eq(t, c.StrC("_"))))
 			ex.AssumeDomain(notKeyword(ex, t))
+			for _, imp := range []string{"q", "h"} { // package-level names differ from the file's import names (Go)
+				ex.AssumeNoCheck(c.Not(c.Eq(t, c.StrC(imp))))
+			}
 			ms.names[tn.Name()] = t
 			scopeNames = append(scopeNames, t)
 			return t
@@ -446,7 +451,7 @@ func runMock(ic *IC, ex *exec.Exec, env *Env, fn exec.Value, pkgs map[string]*ty
 	})
 
 	// reference: which scope object each argument names
-	ifaceObjs := []string{"I1", "I2", "G", "L", "K", "AG", "SO", "Cmp"}
+	ifaceObjs := []string{"I1", "I2", "G", "L", "K", "AG", "SO", "Cmp", "Repo"}
 	var wantI, wantM []*smt.Term
 	var found []*smt.Term
 	for _, np := range nps {
@@ -561,7 +566,7 @@ func runMock(ic *IC, ex *exec.Exec, env *Env, fn exec.Value, pkgs map[string]*ty
 			ex.Fail("C20: cannot determine which interface argument " + fmt.Sprint(i) + " resolved to")
 			continue
 		}
-		if obj.Tag == "L" || obj.Tag == "SO" { // L's signature and SO's constraint mention a source-package type
+		if obj.Tag == "L" || obj.Tag == "SO" || obj.Tag == "Repo" { // L's signature and SO's constraint mention a source-package type
 			usesSrcType = true
 		}
 		iface := obj.Typ.Underlying()
@@ -698,7 +703,7 @@ func mockCLICase(m map[string]string, k int, mode string) *CLICase {
 		"p/q/q.go": "package q\n\ntype T struct{}\n",
 		"r/q/q.go": "package q\n\ntype T struct{}\n",
 		"h/h.go":   "package h\n\nimport \"src.example/r/q\"\n\ntype J interface{ Zed(x q.T) }\n",
-		"src/x.go": fmt.Sprintf("package %s\n\nimport (\n\t\"src.example/h\"\n\t\"src.example/p/q\"\n)\n\ntype %s interface {\n\tM0()\n\tM1(a q.T, b int) error\n\tM2(first q.T, rest ...q.T)\n}\ntype %s interface{}\ntype %s[T any] interface{ Get(k T) T }\ntype %s struct{}\ntype %s interface{ Do(x %s) }\ntype %s interface{ h.J }\ntype %s = %s[int]\ntype %s[T any] interface{ Less(o T) bool }\ntype %s[T %s[T]] interface{ Min() T }\n", src, I1, I2, G, S, L, S, name("K", "K"), name("AG", "AG"), G, name("Cmp", "Cmp"), name("SO", "SO"), name("Cmp", "Cmp")),
+		"src/x.go": fmt.Sprintf("package %s\n\nimport (\n\t\"src.example/h\"\n\t\"src.example/p/q\"\n)\n\ntype %s interface {\n\tM0()\n\tM1(a q.T, b int) error\n\tM2(first q.T, rest ...q.T)\n\tM3(chunks ...[]q.T) []q.T\n}\ntype %s interface{}\ntype %s[T any] interface{ Get(k T) T }\ntype %s struct{}\ntype %s interface{ Do(x %s) }\ntype %s interface{ h.J }\ntype %s = %s[int]\ntype %s[T any] interface{ Less(o T) bool }\ntype %s[T %s[T]] interface{ Min() T }\ntype %s string\ntype %s[K interface{ %s }, V any] interface{ Load(id K) (V, error) }\n", src, I1, I2, G, S, L, S, name("K", "K"), name("AG", "AG"), G, name("Cmp", "Cmp"), name("SO", "SO"), name("Cmp", "Cmp"), name("UID", "UID"), name("Repo", "Repo"), name("UID", "UID")),
 	}
 	var args []string
 	pkg := m["cfg_PkgName"]
